@@ -527,9 +527,18 @@ func (sk sortedKeys) Len() int {
 	return len(sk)
 }
 
+// heldValue gives what an interface value (an element of a []any, a key of a
+// map[any]T) holds; it is compared by that, not as an opaque interface.
+func heldValue(rv reflect.Value) *Value {
+	if rv.Kind() == reflect.Interface {
+		rv = rv.Elem()
+	}
+	return &Value{val: rv}
+}
+
 func (sk sortedKeys) Less(i, j int) bool {
-	vi := &Value{val: sk[i]}
-	vj := &Value{val: sk[j]}
+	vi := heldValue(sk[i])
+	vj := heldValue(sk[j])
 	switch {
 	case vi.IsInteger() && vj.IsInteger():
 		return vi.Integer() < vj.Integer()
@@ -551,8 +560,8 @@ func (vl valuesList) Len() int {
 }
 
 func (vl valuesList) Less(i, j int) bool {
-	vi := vl[i]
-	vj := vl[j]
+	vi := heldValue(vl[i].val)
+	vj := heldValue(vl[j].val)
 	switch {
 	case vi.IsInteger() && vj.IsInteger():
 		return vi.Integer() < vj.Integer()
